@@ -130,7 +130,8 @@ if __name__ == '__main__':
 
 # --------------------------------------------------------------------------------------- functions / scopes (C05)
 BODY_ATOMS = ['Put 9003 into X', 'Put 9003 into Y', 'Put 9003 into Z', 'say X\nBuild it up', 'say Y\nPut 9003 into it', 'Z is 9003\nBuild it up',
-              'say X', 'say Y', 'Build X up', 'Let X be with Y', 'say it']
+              'say X', 'say Y', 'Build X up', 'Let X be with Y', 'say it',
+              'C is 0\nWhile C is less than 2\nBuild C up\ngive back X\n', 'If 9003\ngive back Y\n', 'C is 0\nUntil C is 2\nBuild C up\nZ is 9003\nIf C is 1\nBreak\n\n']
 PARAMS = [['X'], ['Y'], ['Z'], ['X', 'Y'], ['Y', 'X']]
 ARGS = ['X', 'Y', '9005']
 RETS = ['X', 'Y', 'it', 'X plus Y']
@@ -176,6 +177,7 @@ def scope_shapes(max_len=2):
     for a in SCOPE_ATOMS:
         stmts.append(f'If 9004\n{a}\n')
         stmts.append(f'C is 0\nWhile C is less than 1\nBuild C up\n{a}\n')
+        stmts.append(f'C is 0\nWhile C is less than 2\nBuild C up\n{a}\nBreak\n')
     out = []
     for n in range(1, max_len + 1):
         for seq in itertools.product(stmts, repeat=n):
@@ -282,4 +284,20 @@ def poetic_length_shapes(nmax=40):
             if d is not None: ws[d - 1] = ws[d - 1] + '.'
             lit = ' '.join(ws)
             out.append((f'X is {lit}\nsay X\nRock Arr like {lit}\nsay Arr\n', {}))
+    return out
+
+
+
+# ------------------------------------------------------------------------- condition kinds (C04): truthiness of every kind
+COND_VALUES = {'mysterious': 'mysterious', 'null': 'null', 'boolean': '9001 is 9002', 'number': '9001', 'string': '"§1"', 'empty-string': '""', 'array': None, 'empty-array': None}
+
+
+def condition_kind_shapes():
+    """X of every kind used as the whole condition of if / if-else / while / until (loops left by break after one pass), plain and negated"""
+    out = []
+    for kind, lit in COND_VALUES.items():
+        pre = [f'Put {lit} into X'] if lit is not None else (['Rock X with 9001'] if kind == 'array' else ['Rock X'])
+        for cond in ('X', 'not X'):
+            lines = pre + [f'If {cond}', 'say 1', 'Else', 'say 2', '', f'While {cond}', 'say 3', 'Break', '', f'Until {cond}', 'say 4', 'Break', '', f'If {cond}', 'say 5', '', 'say 6']
+            out.append(_finish(lines))
     return out
